@@ -72,9 +72,22 @@ def observe(op, inp):
         return [l, ls]
     fn = inp[5] if op == 'C17a' else inp
     try:
-        return atup(package.DebArchive.from_filename(fn))
+        res = atup(package.DebArchive.from_filename(fn))
     except Exception as e:
-        return Exc(type(e).__name__)
+        res = Exc(type(e).__name__)
+    # the three archive classes read a file name the same way (CodeArchive / CodeMetadata have no architecture)
+    for cls in (package.CodeArchive, package.CodeMetadata):
+        try:
+            a = cls.from_filename(fn)
+            other = [a.name, [a.version.epoch, a.version.upstream, a.version.revision], a.original_filename]
+            if type(a) is not cls or cls.from_filename(a) is not a:
+                return Exc('ArchiveClassesDiffer')
+        except Exception as e:
+            other = Exc(type(e).__name__)
+        mine = res if isinstance(res, Exc) else [res[0], res[1], res[3]]
+        if other != mine:
+            return Exc('ArchiveClassesDiffer')
+    return res
 
 
 def nontrivial(op, inp, obs):
